@@ -487,3 +487,8 @@ Proof.
     assert (exp 1 * exp 1 <= 3 * 3) by (apply Rmult_le_compat; lra). lra. }
   unfold eps_clip in *. rewrite H in L. lra.
 Qed.
+
+Theorem cached_fg_central_difference (a b c d x h : R) : h <> 0 ->
+  is_derive (fun u => d * (u * u * u) + a * (u * u) + b * u + c) x (3 * d * (x * x) + 2 * a * x + b) /\
+  fd_central (fun u => d * (u * u * u) + a * (u * u) + b * u + c) x h = (3 * d * (x * x) + 2 * a * x + b) + d * (h * h).
+Proof. intros Hh. split; [apply fd_central_cubic_is_derive | apply fd_central_cubic; exact Hh]. Qed.
